@@ -190,11 +190,11 @@ impl<'a, T> ChordsV2<'a, T> {
             .find_map(|ach| match ach.status {
                 Unread => {
                     ach.status = Releasable;
-                    Some(Some(((0, ach.coordinate), ach.delay, ach.action)))
+                    Some(Some(((0, ach.coordinate), ach.delay, ach.action, None)))
                 }
                 UnreadReleased => {
                     ach.status = Released;
-                    Some(Some(((0, ach.coordinate), ach.delay, ach.action)))
+                    Some(Some(((0, ach.coordinate), ach.delay, ach.action, None)))
                 }
                 Releasable | Released => None,
             })
